@@ -96,24 +96,32 @@ class RecordingHandler(object):
         self.universe = inner.universe
         self.data_sources = inner.data_sources
 
-    def _log(self, dt, asset):
-        self.reads.append((self._clock.get('now'), secs(dt), asset))
+    def _log(self, dt, asset, kind, value):
+        try:
+            v = float(value)
+        except (TypeError, ValueError):
+            v = float('nan')
+        self.reads.append((self._clock.get('now'), secs(dt), asset, kind, v))
 
     def get_asset_latest_bid_price(self, dt, asset):
-        self._log(dt, asset)
-        return self._inner.get_asset_latest_bid_price(dt, asset)
+        r = self._inner.get_asset_latest_bid_price(dt, asset)
+        self._log(dt, asset, 'bid', r)
+        return r
 
     def get_asset_latest_ask_price(self, dt, asset):
-        self._log(dt, asset)
-        return self._inner.get_asset_latest_ask_price(dt, asset)
+        r = self._inner.get_asset_latest_ask_price(dt, asset)
+        self._log(dt, asset, 'ask', r)
+        return r
 
     def get_asset_latest_bid_ask_price(self, dt, asset):
-        self._log(dt, asset)
-        return self._inner.get_asset_latest_bid_ask_price(dt, asset)
+        r = self._inner.get_asset_latest_bid_ask_price(dt, asset)
+        self._log(dt, asset, 'bid_ask', r[0])
+        return r
 
     def get_asset_latest_mid_price(self, dt, asset):
-        self._log(dt, asset)
-        return self._inner.get_asset_latest_mid_price(dt, asset)
+        r = self._inner.get_asset_latest_mid_price(dt, asset)
+        self._log(dt, asset, 'mid', r)
+        return r
 
     def get_assets_historical_range_close_price(self, *a, **k):
         return self._inner.get_assets_historical_range_close_price(*a, **k)
